@@ -214,6 +214,12 @@ func (e *storeEnv) committer(name string, count int) {
 			cancel()
 			cctx = c2
 		}
+		if e.starvePct > 0 && r.Pct(e.starvePct) {
+			// hold this committer somewhere inside its commit (typically after its
+			// values were written and before its id is assigned)
+			r.Sched.StarveSelf(r.Pick(20, 60, 200, 600))
+			r.Probe("committer-starved")
+		}
 		var hdr *store.TxHeader
 		if kind == 7 {
 			hdr, err = tx.AsyncCommit(cctx)
